@@ -167,11 +167,14 @@ func RunOne(c *core.Ctx, bin string, sc *Scenario, root string, chk *Checker, o 
 		out.Lines = append(out.Lines, marshal(e))
 	}
 	if o.FileObs {
-		passes := 0
-		for _, e := range r.Events {
+		// pass index of every event (a pass = one newPackage call = one PkgStart)
+		passOf := make([]int, len(r.Events))
+		pass := 0
+		for i, e := range r.Events {
 			if e["ev"] == "PkgStart" {
-				passes++
+				pass++
 			}
+			passOf[i] = pass
 		}
 		var rels []string
 		for rel := range sc.Files {
@@ -184,12 +187,20 @@ func RunOne(c *core.Ctx, bin string, sc *Scenario, root string, chk *Checker, o 
 			abs := filepath.Join(root, rel)
 			now, err := os.ReadFile(abs)
 			var rens []map[string]interface{}
-			for _, e := range r.Events {
+			renPasses := map[int]bool{}
+			firstRewrite := 0
+			for i, e := range r.Events {
 				if e["ev"] == "Rename" && e["file"] == abs {
 					rens = append(rens, e)
+					renPasses[passOf[i]] = true
+				}
+				if e["ev"] == "Rewrite" && e["file"] == abs && firstRewrite == 0 {
+					firstRewrite = passOf[i]
 				}
 			}
-			out.Lines = append(out.Lines, marshal(fileObs(abs, []byte(sc.Files[rel]), now, err == nil, rens, passes == 1)))
+			// the rename offsets refer to the original text as long as the file was not rewritten in an earlier pass
+			single := len(renPasses) <= 1 && (firstRewrite == 0 || renPasses[firstRewrite])
+			out.Lines = append(out.Lines, marshal(fileObs(abs, []byte(sc.Files[rel]), now, err == nil, rens, single)))
 		}
 	}
 	out.Lines = append(out.Lines, marshal(map[string]interface{}{
